@@ -212,8 +212,11 @@ def run_bldfm_multitower(
 def _worker_single(args):
     """Worker function for parallel execution of a single (tower, timestep) pair."""
     config, tower, met_index = args
-    # Reset inherited state from parent process to avoid fork-safety issues
-    os.environ["NUMBA_NUM_THREADS"] = "1"
+    # Reset inherited state from parent process to avoid fork-safety issues.
+    # (NUMBA_NUM_THREADS must not be changed here: numba is already initialised in
+    # a forked worker, and once the parent has launched its thread pool a changed
+    # value makes any compilation in the worker raise RuntimeError.  The worker
+    # runs the serial flavour of the kernels because NUM_THREADS is 1.)
     from bldfm import config as cfg
 
     cfg.NUM_THREADS = 1
@@ -226,8 +229,11 @@ def _worker_single(args):
 def _worker_timeseries(args):
     """Worker function for parallel execution of a full timeseries for one tower."""
     config, tower = args
-    # Reset inherited state from parent process to avoid fork-safety issues
-    os.environ["NUMBA_NUM_THREADS"] = "1"
+    # Reset inherited state from parent process to avoid fork-safety issues.
+    # (NUMBA_NUM_THREADS must not be changed here: numba is already initialised in
+    # a forked worker, and once the parent has launched its thread pool a changed
+    # value makes any compilation in the worker raise RuntimeError.  The worker
+    # runs the serial flavour of the kernels because NUM_THREADS is 1.)
     from bldfm import config as cfg
 
     cfg.NUM_THREADS = 1
